@@ -171,7 +171,24 @@ def gen_objlib(rng):
         for sg in holder['signals']:
             if registered and rng.random() < 0.3 and not sg.get('emitter'):
                 sg['params'].append(rng.choice(registered))
-    return {'classes': classes, 'ifaces': ifaces, 'boxed': boxed, 'enums': enums, 'quarks': quarks, 'own': own, 'registered': registered}
+    # fundamental (non-GObject) instantiatable type hierarchies: roots without parents, roots behind a hidden type, derived ones
+    fundamentals = []
+    if rng.random() < 0.4:
+        for i in range(rng.choice([1, 2, 3])):
+            if not names:
+                break
+            nm = 'Foo' + names.pop()
+            kind = rng.choice(['root', 'root', 'hidden-root', 'derived', 'derived-hidden']) if fundamentals else rng.choice(['root', 'root', 'hidden-root'])
+            base = rng.choice(fundamentals)['name'] if fundamentals else None
+            chain = {'root': [], 'hidden-root': ['FooPriv%sBase' % nm[3:]], 'derived': [base] + (rng.choice(fundamentals)['chain'] if False else []),
+                     'derived-hidden': ['FooPriv%sMid' % nm[3:], base]}[kind]
+            if kind in ('derived', 'derived-hidden'):
+                chain = chain + [x for x in next(f for f in fundamentals if f['name'] == base)['chain']]
+            fundamentals.append({'name': nm, 'chain': chain, 'abstract': rng.random() < 0.3, 'final': rng.random() < 0.2, 'kind': kind,
+                                 'implements': [f['name'] for f in ifaces if rng.random() < 0.2]})
+            own.append(nm)
+    return {'classes': classes, 'ifaces': ifaces, 'boxed': boxed, 'enums': enums, 'quarks': quarks, 'own': own, 'registered': registered,
+            'fundamentals': fundamentals}
 
 
 def render_objlib(m, rng=None):
@@ -239,6 +256,22 @@ def render_objlib(m, rng=None):
         d.extend(_dump_props(c['props']))
         d.extend(_dump_signals(c['signals']))
         d.append('  </class>')
+    for fu in m.get('fundamentals', []):
+        nm = fu['name']
+        us = 'foo_' + uscore(nm[3:])
+        h.append('typedef struct _%s %s;\nstruct _%s {\n  GTypeInstance parent_instance;\n  gint ref_count;\n};' % (nm, nm, nm))
+        h.append('GType %s_get_type (void);' % us)
+        at = ' instantiatable="1"'
+        if fu['abstract']:
+            at += ' abstract="1"'
+        if fu['final']:
+            at += ' final="1"'
+        if fu['chain']:
+            at += ' parents=%s' % quoteattr(','.join(fu['chain']))
+        d.append('  <fundamental name=%s get-type=%s%s>' % (quoteattr(nm), quoteattr(us + '_get_type'), at))
+        for i in fu['implements']:
+            d.append('    <implements name=%s/>' % quoteattr(i))
+        d.append('  </fundamental>')
     for b in m['boxed']:
         nm = b['name']
         us = 'foo_' + uscore(nm[3:])
